@@ -484,3 +484,17 @@ def replay_all(case, ob, inputs):
         if amap[t]: want += [a for a in ANSWERS[t] if a not in want]
     ok = r[0] == 'ret' and sorted(r[1]) == sorted(want) and len(set(r[1])) == len(r[1])
     return {'confirmed': not ok, 'call': f'FindInAll.find with unfold_search / get_finder / do_find stubbed; finders per typed search {assign}', 'observed': repr(r)[:300], 'expected': repr(want)}
+
+# ------------------------------------------------------------------ recorded finding C10-alias-before-doublestar
+def in_known_class(entry, inputs):
+    """the segment directly before '/**' is an extension alias name"""
+    if entry.get('id') != 'C10-alias-before-doublestar' or not isinstance(inputs, dict): return False
+    s_ = inputs.get('search')
+    if not isinstance(s_, str): return False
+    segs = s_.split('?')[0].split('/')
+    return '**' in segs and segs.index('**') > 0 and segs[segs.index('**') - 1].strip() in C.conf('extension_alias')
+def reproduce_known(entry):
+    w = entry['native_witness']; C.clear_native_caches()
+    got = _nat_U(w['search'])
+    want = sorted({u for d in w['derived'] for u in _nat_U(d) if is_leaf_type(u.split(':', 1)[0])})
+    return got != want
